@@ -46,6 +46,9 @@ class Solver:
         self.timeout_ms = timeout_ms; self.nl_timeout_ms = nl_timeout_ms
         self.vars = {}
         self.box = {}
+        self.guess_first = True
+        self._last_guess = None
+        self._guess_sentinel = z3.BoolVal(True)
         self.default_box = default_box
         self.stats = stats or Stats()
         self.defs_emitted = set()
@@ -76,9 +79,71 @@ class Solver:
                 c, p, q = P.ATOMS.info[x]
                 todo.extend(p.atoms()); todo.extend(q.atoms()); todo.extend(_cond_atoms(c))
 
+    # ---- witnesses by evaluation ------------------------------------------------------------------------------
+    def _free_atoms(self):
+        return sorted(a for a in self.vars if P.ATOMS.kind[a] in ('in', 'cot', 'par'))
+
+    def candidate_models(self, atoms=None):
+        """a few canonical dyadic points of the box (constant, alternating, one-hot, ramp); used to find witnesses of
+        satisfiable queries under non-linear path conditions by plain evaluation before the solver is asked"""
+        atoms = list(atoms if atoms is not None else self._free_atoms())
+        n = len(atoms)
+        if not n:
+            return
+        H = Fraction(1, 2)
+        pats = [lambda i: Fraction(1), lambda i: Fraction(-1), lambda i: H, lambda i: Fraction(1) if i % 2 == 0 else Fraction(-1),
+                lambda i: Fraction(1) if i == 0 else Fraction(0), lambda i: Fraction(1) if i % 2 == 0 else H,
+                lambda i: Fraction(1) if i < n // 2 else Fraction(-1), lambda i: Fraction((i % 5) - 2, 2), lambda i: Fraction(0),
+                lambda i: Fraction(1) if i == n - 1 else H]
+        for f in pats:
+            m = {}
+            ok = True
+            for i, a in enumerate(atoms):
+                v = f(i)
+                lo, hi = self.bound(a) or (None, None)
+                if (lo is not None and v < lo) or (hi is not None and v > hi):
+                    # scale the pattern into the box
+                    r = min(abs(lo) if lo is not None else 1, abs(hi) if hi is not None else 1)
+                    v = v * r
+                m[a] = v
+            if ok:
+                yield m
+
+    def _on_path(self, env, margin=1e-9):
+        for c, dec in self.path:
+            try:
+                if bool(P.cond_evalf(c, env)) != dec:
+                    return False
+                if hasattr(c, 'a') and hasattr(c, 'b') and c.op in ('lt', 'le', 'gt', 'ge', 'ne') and not isinstance(c.a, P.Cond):
+                    if abs(c.a.evalf(env) - c.b.evalf(env)) <= margin:      # too close to the branch point for a float replay
+                        return False
+            except (KeyError, AttributeError, ZeroDivisionError, OverflowError):
+                return False
+        return True
+
+    def guess(self, d=None, tau=None):
+        """a canonical point on the current path (and, if d is given, with |d| > 2 tau there); None if none of them qualifies"""
+        for m in self.candidate_models():
+            env = P.AtomEnv()
+            for a, v in m.items():
+                env[a] = float(v)
+            if not self._on_path(env):
+                continue
+            if d is not None:
+                try:
+                    val = d.evalf(env)
+                except (KeyError, ZeroDivisionError, OverflowError):
+                    continue
+                if not (abs(val) > 2 * float(tau)) or val != val:
+                    continue
+            return m
+        return None
+
     def nice_model(self, extra, atoms, grid=(-1, Fraction(-1, 2), 0, Fraction(1, 2), 1)):
         """a model of the base assertions + extra in which the given atoms take values on a coarse dyadic grid
         (so that the floating-point replay evaluates data-dependent branches exactly as the rational model does)"""
+        if extra is self._guess_sentinel and self._last_guess is not None:
+            return dict(self._last_guess)        # the last sat verdict was a witness found by evaluation: already dyadic and on the path
         self.s.push()
         try:
             self.s.add(extra)
@@ -225,6 +290,13 @@ class Solver:
         t0 = time.time()
         st.queries += 1
         lin = d.is_linear()
+        if self.path and self.guess_first:
+            got = self.guess(d, tau)
+            if got is not None:
+                st.sat += 1; st.solver_s += time.time() - t0
+                self._last_query = self._guess_sentinel
+                self._last_guess = got
+                return 'sat', got
         if not lin:
             st.nonlinear += 1
             if not with_defs and not self.path and self._relax_unsat(d, tau):
@@ -277,6 +349,7 @@ class Solver:
                     model[a] = _z3_to_frac(val)
                 if self.path:
                     self._last_query = z3.Or(term > thr, term < -thr)
+                    self._last_guess = None
             elif rs == 'unsat':
                 st.unsat += 1
             else:
